@@ -110,6 +110,57 @@ def rule_publish_notify(ctx: Ctx, out: Collector) -> None:
                             path_text(g, path))
 
 
+def rule_waiting_request_notifies_its_dag(ctx: Ctx, out: Collector) -> None:
+    """WK-n: a request for a node that another request is executing waits for the execution event and then owes its *own* dag
+    the same notification an executing request gives: when the node is the destination of the dag of this request, the owner of
+    that dag waits on the node's condition - and the executing request (for which the node may be an intermediate one) does
+    not notify it.  After the event wait of node K every normal path to the end of the task notifies K's condition on the
+    branch where K is dag.dest."""
+    mrun = ctx.manager_run().fid
+    n = 0
+    seen = set()
+    for fid, g in ctx.run_graphs().items():
+        if fid == mrun:
+            continue
+        nps = notify_points(ctx, g)
+        for ev in g.events('call'):
+            K = ctx.roles.event_wait(ev)
+            if K is None or K == ('unknown',) or not _real_node_key(ctx, g, K):
+                continue
+            cons = ctx.construct(ev) + f' => notify {sym.show(K)} when it is dag.dest [waiting request] in task root {_root_name(g)}'
+            if cons in seen:
+                continue
+            seen.add(cons)
+            n += 1
+            barrier = {m for m, k, how in nps if k == K or (isinstance(k, tuple) and k[0] == 'attr' and k[2] == 'dest')}
+
+            def edge_ok(e: Ev, lab: str, mev: Ev, K=K) -> bool:
+                if e.kind == 'branch' and lab == 'F' and e.info.get('test') is not None:
+                    if _is_dest_test(sym.term(ctx.p, e.info['test'], e.inst), K):
+                        return False
+                return True
+            s_ = Search(ctx.p, g, NORMAL_LABELS)
+
+            def step(e, state, facts, via=ev.id, barrier=barrier):
+                if state == 0:
+                    return 1 if e.id == via else 0
+                if e.id in barrier:
+                    return None
+                return 1
+            res = s_.run([(g.entry, 0, frozenset())], step, lambda e, st, f: st == 1 and e.id == g.exit, edge_ok=edge_ok)
+            if res is None:
+                out.ok('WK-n', cons, ev.where(), 'after waiting for the execution by another request, the node\'s own condition is notified '
+                                                'when the node is the destination of this request\'s dag')
+            else:
+                out.bad('WK-n', cons, ev.where(),
+                        f'a request that waited for {sym.show(K)} to be executed by another request can end its task without notifying '
+                        f'{sym.show(K)}\'s condition when {sym.show(K)} is the destination of its own dag: the owner of that dag (a one-of '
+                        f'resolving its candidate, a switch, run()) waits on it, the executing request does not notify it (there the node is '
+                        f'an intermediate one) - the result is stored, nothing is left to execute, the run hangs', path_text(g, res[0]))
+    if n == 0:
+        raise AnalysisError('no wait for the execution event of a node found in a task root (WK-n anchor vanished)')
+
+
 def _is_run_key(ctx: Ctx, k) -> bool:
     return k == ('const', 'run')
 
